@@ -13,11 +13,21 @@ The process state is a record of abstract *streams* (`σ` is the type of a gener
   `os`       everything that `seed()` does not control: OS entropy, the clock, … — an unconstrained
              oracle (it has an arbitrary value in every run and evolves by an arbitrary function),
   `ext`      generators the caller created itself and hands to components (`rng=` argument),
-  `spawned`  generators obtained from `spawn()` since the last `seed()` (handles of the program).
+  `spawned`  generators obtained from `spawn()` since the last `seed()` (handles of the program),
+  `objs`     long-lived stochastic objects (a mating protocol, an optimiser, a selection
+             configuration … constructed once and used many times): the generator handle the object
+             holds and its PRIVATE state created at construction / `rng`-assignment time (`Cached`:
+             a derived generator, a memo, a stored configuration).
 
 A component is an ARBITRARY function of a `View` — the streams in its measured dependency set and
 nothing else — and may update only those (frame by construction).  Which streams a component of
 the real library depends on is measured on every run and written to `Generated/C08Deps.lean`.
+
+A long-lived object is a triple (class, constructor arguments, call sequence): `Op.new` runs the
+constructor (an arbitrary function of the streams in `ctorDeps`; it returns what is observable of
+the construction and the private state), `Op.use` calls the method on the k-th object with the
+generator the object holds, `Op.setrng` re-assigns the object's `rng` attribute (the private state
+is derived again).  The method sees the private state only when the class is `cached`.
 -/
 
 namespace Prng
@@ -35,6 +45,37 @@ structure Prim (σ : Type) where
   /-- `numpy.random.Generator(BitGenerator(v))` -/
   genSeed : Nat → σ
 
+/-- the `rng` argument of a call -/
+inductive RngArg where
+  | glob                 -- `rng=None`
+  | ext (k : Nat)        -- a generator of the caller
+  | spawned (k : Nat)    -- the k-th generator spawned since the last `seed()`
+  deriving DecidableEq, Repr
+
+def RngArg.isGlob : RngArg → Bool
+  | .glob => true
+  | _ => false
+
+def RngArg.isSpawned : RngArg → Bool
+  | .spawned _ => true
+  | _ => false
+
+def RngArg.isExt : RngArg → Bool
+  | .ext _ => true
+  | _ => false
+
+/-- a long-lived stochastic object: the generator handle it holds (`rng=None` ↦ `glob`), whether
+    that handle is still meaningful (a handle to a spawned generator dies with the next `seed()`:
+    the program can no longer name that generator), and the private state created at
+    construction / `rng`-assignment time -/
+structure ObjSt (σ : Type) where
+  arg : RngArg
+  alive : Bool
+  priv : σ
+
+/-- what `seed()` does to an object: nothing, except that handles to spawned generators die -/
+def ObjSt.reseed {σ} (o : ObjSt σ) : ObjSt σ := { o with alive := o.alive && !o.arg.isSpawned }
+
 /-- process-global entropy state -/
 structure St (σ : Type) where
   py : σ
@@ -42,6 +83,7 @@ structure St (σ : Type) where
   os : σ
   ext : List σ
   spawned : List σ
+  objs : List (ObjSt σ) := []
 
 /-! ### dependency sets -/
 
@@ -68,17 +110,6 @@ structure Comp (σ ο : Type) where
   deps : Deps
   sem : View σ → ο × View σ
 
-/-- the `rng` argument of a call -/
-inductive RngArg where
-  | glob                 -- `rng=None`
-  | ext (k : Nat)        -- a generator of the caller
-  | spawned (k : Nat)    -- the k-th generator spawned since the last `seed()`
-  deriving DecidableEq, Repr
-
-def RngArg.isGlob : RngArg → Bool
-  | .glob => true
-  | _ => false
-
 /-- `none`: invalid handle (the real call raises); `some none`: global; `some (some g)`: state `g` -/
 def getGen {σ} (st : St σ) : RngArg → Option (Option σ)
   | .glob => some none
@@ -98,35 +129,78 @@ def upd {σ} (b : Bool) (old : σ) (new : Option σ) : σ := if b then new.getD 
     or when it draws from its `rng` and was handed `None` -/
 def useNp (d : Deps) (glob : Bool) : Bool := d.np || (d.rng && glob)
 
-/-- one call of a component.  Only the streams of the (effective) dependency set are shown to the
-    component and only those are written back. -/
-def call {σ ο} (c : Comp σ ο) (arg : RngArg) (st : St σ) : Option (ο × St σ) :=
+/-- run an arbitrary function `f` of the view determined by the dependency set `d` and the `rng`
+    argument.  Only the streams of the (effective) dependency set are shown to `f` and only those
+    are written back (frame by construction).  Objects are never touched. -/
+def withView {σ α} (d : Deps) (f : View σ → α × View σ) (arg : RngArg) (st : St σ) : Option (α × St σ) :=
   match getGen st arg with
   | none => none
   | some gen =>
-    let un := useNp c.deps gen.isNone
+    let un := useNp d gen.isNone
     let v : View σ :=
-      { rng := gen.bind (sel c.deps.rng), py := sel c.deps.py st.py, np := sel un st.np,
-        os := sel c.deps.os st.os }
-    let r := c.sem v
+      { rng := gen.bind (sel d.rng), py := sel d.py st.py, np := sel un st.np,
+        os := sel d.os st.os }
+    let r := f v
     let st1 : St σ :=
-      { st with py := upd c.deps.py st.py r.2.py, np := upd un st.np r.2.np,
-                os := upd c.deps.os st.os r.2.os }
+      { st with py := upd d.py st.py r.2.py, np := upd un st.np r.2.np,
+                os := upd d.os st.os r.2.os }
     let st2 : St σ :=
       match gen with
-      | some g => if c.deps.rng then putGen st1 arg (r.2.rng.getD g) else st1
+      | some g => if d.rng then putGen st1 arg (r.2.rng.getD g) else st1
       | none => st1
     some (r.1, st2)
+
+/-- one call of a component (constructed afresh, called once) -/
+def call {σ ο} (c : Comp σ ο) (arg : RngArg) (st : St σ) : Option (ο × St σ) :=
+  withView c.deps c.sem arg st
+
+/-! ### long-lived objects -/
+
+/-- a class of long-lived stochastic objects -/
+structure Cls (σ ο : Type) where
+  /-- streams the constructor / the `rng` setter reads -/
+  ctorDeps : Deps
+  /-- constructor: what is observable of the construction (e.g. the first sampled configuration)
+      and the private state it creates -/
+  ctor : View σ → (ο × σ) × View σ
+  /-- streams a method call reads -/
+  deps : Deps
+  /-- the method reads (and may update) the private state created at construction time -/
+  cached : Bool
+  sem : Option σ → View σ → (ο × Option σ) × View σ
+
+/-- `obj = Class(args, rng=arg)` -/
+def new {σ ο} (c : Cls σ ο) (arg : RngArg) (st : St σ) : Option (ο × St σ) :=
+  (withView c.ctorDeps c.ctor arg st).map
+    (fun r => (r.1.1, { r.2 with objs := r.2.objs ++ [⟨arg, true, r.1.2⟩] }))
+
+/-- `obj.rng = arg` (the private state is derived again) -/
+def setRng {σ ο} (c : Cls σ ο) (k : Nat) (arg : RngArg) (st : St σ) : Option (ο × St σ) :=
+  if k < st.objs.length then
+    (withView c.ctorDeps c.ctor arg st).map
+      (fun r => (r.1.1, { r.2 with objs := r.2.objs.set k ⟨arg, true, r.1.2⟩ }))
+  else none
+
+/-- `obj.method(args)` on the k-th object, with the generator the object holds -/
+def use {σ ο} (c : Cls σ ο) (k : Nat) (st : St σ) : Option (ο × St σ) :=
+  match st.objs[k]? with
+  | none => none
+  | some ob =>
+    if ob.alive then
+      (withView c.deps (c.sem (sel c.cached ob.priv)) ob.arg st).map
+        (fun r => (r.1.1, { r.2 with objs := r.2.objs.set k ⟨ob.arg, true, upd c.cached ob.priv r.1.2⟩ }))
+    else none
 
 /-! ### seed and spawn (prng.py l.121-173) -/
 
 /-- `py_random.seed(s); numpy.random.seed(py_random.randint(0, 2**32-1))`.
     Modelling device: `seed` opens a new scope of spawned handles (a program that is repeated
-    after re-seeding can only name generators it spawns itself). -/
+    after re-seeding can only name generators it spawns itself).  Long-lived objects SURVIVE the
+    re-seeding with their private state (that is what makes them dangerous). -/
 def seed {σ} (P : Prim σ) (s : Nat) (st : St σ) : St σ :=
   let py0 := P.pySeed s
   let d := P.pyDraw py0
-  { st with py := d.2, np := P.npSeed d.1, spawned := [] }
+  { st with py := d.2, np := P.npSeed d.1, spawned := [], objs := st.objs.map ObjSt.reseed }
 
 /-- `[Generator(BitGenerator(py_random.randint(0, 2**sbits-1))) for _ in range(n)]` -/
 def spawnGo {σ} (P : Prim σ) : Nat → σ → List σ × σ
@@ -146,6 +220,9 @@ inductive Op (σ ο : Type) where
   | seed (s : Nat)
   | spawn (n : Nat)
   | call (c : Comp σ ο) (arg : RngArg)
+  | new (c : Cls σ ο) (arg : RngArg)
+  | use (c : Cls σ ο) (k : Nat)
+  | setrng (c : Cls σ ο) (k : Nat) (arg : RngArg)
 
 /-- observable result of an operation (for `spawn`: the states of the new generators) -/
 inductive Out (σ ο : Type) where
@@ -158,6 +235,9 @@ def step {σ ο} (P : Prim σ) : Op σ ο → St σ → Option (Out σ ο × St 
   | .seed s, st => some (.seeded, seed P s st)
   | .spawn n, st => let r := spawn P n st; some (.gens r.1, r.2)
   | .call c arg, st => (call c arg st).map (fun r => (.val r.1, r.2))
+  | .new c arg, st => (new c arg st).map (fun r => (.val r.1, r.2))
+  | .use c k, st => (use c k st).map (fun r => (.val r.1, r.2))
+  | .setrng c k arg, st => (setRng c k arg st).map (fun r => (.val r.1, r.2))
 
 /-- run a program; `none` when some call names a generator that does not exist -/
 def run {σ ο} (P : Prim σ) : List (Op σ ο) → St σ → Option (List (Out σ ο) × St σ)
@@ -172,16 +252,81 @@ def run {σ ο} (P : Prim σ) : List (Op σ ο) → St σ → Option (List (Out 
 
 def Op.readsOS {σ ο} : Op σ ο → Bool
   | .call c _ => c.deps.os
+  | .new c _ => c.ctorDeps.os
+  | .use c _ => c.deps.os
+  | .setrng c _ _ => c.ctorDeps.os
   | _ => false
 
+/-- syntactic and conservative: the operation may read or write one of the caller's own generators
+    (a method call may, through the handle its object holds) -/
 def Op.usesExt {σ ο} : Op σ ο → Bool
   | .call _ (.ext _) => true
+  | .new _ (.ext _) => true
+  | .setrng _ _ (.ext _) => true
+  | .use _ _ => true
   | _ => false
+
+/-- the operation names an already existing object -/
+def Op.usesObj {σ ο} : Op σ ο → Bool
+  | .use _ _ => true
+  | .setrng _ _ _ => true
+  | _ => false
+
+/-! ### static analysis of programs with long-lived objects
+
+What a program does to the objects can be followed without running it: which handle each object
+holds and whether its private state was (re)derived since the last `seed()` from seeded streams
+(`clean`).  `reproducible` uses it to say: a method that reads private state is only called on
+objects built or re-assigned after the re-seeding. -/
+
+/-- abstract object: the handle it holds; `clean` = its private state is a function of the seed
+    and of the program (it was derived after the re-seeding) -/
+structure AObj where
+  arg : RngArg
+  clean : Bool
+  deriving DecidableEq, Repr
+
+def absStep {σ ο} : Op σ ο → List AObj → List AObj
+  | .new _ arg, h => h ++ [⟨arg, true⟩]
+  | .setrng _ k arg, h => h.set k ⟨arg, true⟩
+  | _, h => h
+
+/-- a `cached` method is only called on an object whose private state is clean -/
+def Op.cleanUse {σ ο} (h : List AObj) : Op σ ο → Bool
+  | .use c k => !c.cached || ((h[k]?).map (·.clean)).getD true
+  | _ => true
+
+/-- precise version of `usesExt`: the operation reaches one of the caller's own generators -/
+def Op.extUse {σ ο} (h : List AObj) : Op σ ο → Bool
+  | .call _ (.ext _) => true
+  | .new _ (.ext _) => true
+  | .setrng _ _ (.ext _) => true
+  | .use _ k => ((h[k]?).map (fun a => a.arg.isExt)).getD false
+  | _ => false
+
+/-- `p h op` holds at every operation, `h` being the abstract object list at that point -/
+def progAll {σ ο} (p : List AObj → Op σ ο → Bool) : List AObj → List (Op σ ο) → Bool
+  | _, [] => true
+  | h, op :: rest => p h op && progAll p (absStep op h) rest
+
+/-- the abstract object list of a concrete state right after a re-seeding: handles as they are,
+    no private state is clean -/
+def absOf {σ} (st : St σ) : List AObj := st.objs.map (fun o => ⟨o.arg, false⟩)
+
+/-- what of an object is NOT private state -/
+def ObjSt.handle {σ} (o : ObjSt σ) : RngArg × Bool := (o.arg, o.alive)
+
+/-- the abstract object list after a program -/
+def absRun {σ ο} : List (Op σ ο) → List AObj → List AObj
+  | [], h => h
+  | op :: rest, h => absRun rest (absStep op h)
 
 /-- a call made with an explicit generator by a component whose only dependency is that generator -/
 def Op.isolatedCall {σ ο} : Op σ ο → Bool
   | .call c arg => !arg.isGlob && !c.deps.py && !c.deps.np && !c.deps.os
   | _ => false
+
+def Deps.rngOnly (d : Deps) : Bool := !d.py && !d.np && !d.os
 
 /-- an isolated call on one of the caller's own generators -/
 def Op.extIso {σ ο} : Op σ ο → Bool
@@ -234,12 +379,25 @@ structure Row where
   /-- for a component with an `rng` parameter: what drew from a global stream although an
       explicit generator was supplied -/
   leakSites : List String
+  /-- streams touched by the constructor / the `rng` setter of the long-lived object, measured with
+      `rng=None` and with an explicit generator (all false for plain functions) -/
+  ctorGlob : Obs := ⟨false, false, false, false⟩
+  ctorExpl : Obs := ⟨false, false, false, false⟩
+  /-- fifth source (`Cached`): the result of a method call depends on private state created at
+      construction / `rng`-assignment time — measured: same seed, same call, object built under a
+      different stream state or used a different number of times before the re-seeding -/
+  cached : Bool := false
   deriving DecidableEq, Repr
 
 /-- role-based dependency set derived from the two measurements -/
 def Row.deps (r : Row) : Deps :=
   if r.accepts then ⟨r.expl.own, r.expl.py, r.expl.np, r.expl.os⟩
   else ⟨false, r.glob.py, r.glob.np, r.glob.os⟩
+
+/-- dependency set of the constructor / `rng` setter -/
+def Row.ctorDeps (r : Row) : Deps :=
+  if r.accepts then ⟨r.ctorExpl.own, r.ctorExpl.py, r.ctorExpl.np, r.ctorExpl.os⟩
+  else ⟨false, r.ctorGlob.py, r.ctorGlob.np, r.ctorGlob.os⟩
 
 /-- the two measurement modes fit the role model: with `rng=None` the numpy global is touched iff
     the component uses its `rng` or the numpy global directly; `py`/`os` do not depend on the mode;
@@ -251,6 +409,12 @@ def Row.consistent (r : Row) : Bool :=
   && r.glob.os == r.deps.os
   && r.deps.os == !r.osSites.isEmpty
   && (r.accepts || r.expl == r.glob)
+  && r.ctorGlob.own == false
+  && r.ctorGlob.np == (r.ctorDeps.rng || r.ctorDeps.np)
+  && r.ctorGlob.py == r.ctorDeps.py
+  && r.ctorGlob.os == r.ctorDeps.os
+  && (r.accepts || r.ctorExpl == r.ctorGlob)
+  && (!r.ctorDeps.os || !r.osSites.isEmpty)
 
 /-- every recorded OS-entropy site is one of the known findings -/
 def Row.unseededKnown (known : List String) (r : Row) : Bool := r.osSites.all (known.contains ·)
@@ -262,12 +426,61 @@ def Row.leaksKnown (known : List String) (r : Row) : Bool :=
   || (!r.leakSites.isEmpty && r.leakSites.all (known.contains ·))
 
 def Row.seeded (r : Row) : Bool := r.osSites.isEmpty
-def Row.isolatedOk (r : Row) : Bool := r.accepts && r.leakSites.isEmpty && !(r.deps.py || r.deps.np || r.deps.os)
+def Row.isolatedOk (r : Row) : Bool :=
+  r.accepts && r.leakSites.isEmpty && !(r.deps.py || r.deps.np || r.deps.os)
+  && !(r.ctorDeps.py || r.ctorDeps.np || r.ctorDeps.os) && !r.cached
+
+/-- private state created at construction time is read by a method only where a known finding says so -/
+def Row.cachedKnown (known : List String) (r : Row) : Bool := !r.cached || known.contains r.name
 
 /-- the operation calls (an arbitrary implementation of) a component of the given rows -/
 def fromRows {σ ο} (rows : List Row) : Op σ ο → Prop
   | .call c _ => ∃ r ∈ rows, c.deps = r.deps
+  | .new c _ => ∃ r ∈ rows, c.deps = r.deps ∧ c.ctorDeps = r.ctorDeps ∧ c.cached = r.cached
+  | .use c _ => ∃ r ∈ rows, c.deps = r.deps ∧ c.ctorDeps = r.ctorDeps ∧ c.cached = r.cached
+  | .setrng c _ _ => ∃ r ∈ rows, c.deps = r.deps ∧ c.ctorDeps = r.ctorDeps ∧ c.cached = r.cached
   | _ => True
+
+/-! ### static table: every entropy call site in the source (`Generated/C08Static.lean`) -/
+
+/-- one kind of entropy call site found by the AST scan of every pybrops module:
+    `module`/`func` where it is, `kind` which source it addresses —
+    "np" a call of `numpy.random.<fn>` (legacy global stream), "npref" a reference to such a function,
+    "py" the `random` module, "gprng" a use of `global_prng` other than the sanctioned default
+    `if rng is None: rng = global_prng`, "gprng-default" that default, "os" OS entropy
+    (`default_rng()`, `SeedSequence()`, `RandomState()`, `os.urandom`, `secrets`, `uuid`), "time" a clock —
+    `what` the callee, `count` how often in that function, `reached` the rows (indices into the
+    measured dependency table) during whose measurement the function was executed -/
+structure Site where
+  module : String
+  func : String
+  kind : String
+  what : String
+  count : Nat
+  reached : List Nat
+  deriving DecidableEq, Repr
+
+/-- the global stream a site of this kind addresses is in the measured set of the row — in BOTH
+    measurement modes when the component has an `rng` parameter: a component that is measured to be
+    isolated (`expl` without that stream) must not execute a function that addresses the stream
+    directly, whichever branch the explored call took -/
+def Site.inMeasuredSet (s : Site) (r : Row) : Bool :=
+  if s.kind == "np" || s.kind == "npref" || s.kind == "gprng" then r.glob.np && (!r.accepts || r.expl.np)
+  else if s.kind == "py" then r.glob.py && (!r.accepts || r.expl.py)
+  else false
+
+/-- allow-list entries are (kind, module) pairs generated from the `finding:` lines; kind "static"
+    allows every site of the module -/
+def Site.allowed (allow : List (String × String)) (s : Site) : Bool :=
+  allow.any (fun a => (a.1 == s.kind || a.1 == "static") && a.2 == s.module)
+
+/-- the obligation on one site: sanctioned default, allow-listed, or executed during the measurement
+    of a component whose measured dependency set contains the stream it addresses -/
+def Site.covered (table : List Row) (allow : List (String × String)) (s : Site) : Bool :=
+  s.kind == "gprng-default" || s.allowed allow
+  || s.reached.any (fun i => match table[i]? with
+      | some r => s.inMeasuredSet r
+      | none => false)
 
 /-- a `seed` that only seeds the `random` module (mutant of prng.py l.137) -/
 def seedPyOnly {σ} (P : Prim σ) (s : Nat) (st : St σ) : St σ :=
@@ -307,5 +520,19 @@ def toyComp (tag : Nat) (d : Deps) : Comp Nat Nat :=
       let r := h v.os 4 (h v.np 3 (h v.py 2 (h v.rng 1 tag)))
       (r, { rng := v.rng.map (fun x => mix (mix x 21) r), py := v.py.map (fun x => mix (mix x 22) r),
             np := v.np.map (fun x => mix (mix x 23) r), os := v.os.map (fun x => mix (mix x 24) r) }) }
+
+/-- generic class of long-lived objects on the toy instance: the constructor derives the private
+    state from every stream it sees; the method mixes the private state (when `cached`) into its
+    result and advances it -/
+def toyCls (tag : Nat) (cd d : Deps) (cached : Bool) : Cls Nat Nat :=
+  { ctorDeps := cd,
+    ctor := fun v => let r := (toyComp (tag + 1000) cd).sem v; ((r.1, mix r.1 31), r.2),
+    deps := d, cached := cached,
+    sem := fun p v =>
+      let r := (toyComp tag d).sem v
+      let o := match p with
+        | some x => mix r.1 x
+        | none => r.1
+      ((o, p.map (fun x => mix x o)), r.2) }
 
 end Prng
